@@ -14,3 +14,18 @@ REG.contract('ListNode.to_obj', params={'self': 'ref[ListNode]'}, returns='list[
              ensures=[f'len(result) == len({S})', f'forall(i, 0, len(result), result[i] == objof({S}[i]))'])
 REG.contract('PLISTNode.to_obj', params={'self': 'ref[PLISTNode]'}, returns='int', ensures=['result == objof(self.root)'])
 REG.targets = ['graphtage.ListNode.to_obj', 'plist.PLISTNode.to_obj']
+
+# MappingNode.to_obj: the real dict comprehension over items(); the plain keys must be pairwise distinct (a mapping built by a
+# loader has distinct keys; equal plain keys would collapse entries), then the result lists (objof(key), objof(value)) in item order
+REG.fields(mitems='list[tuple[ref[TreeNode],ref[KeyValuePairNode]]]', key='ref[TreeNode]', value='ref[TreeNode]')
+REG.contract('MappingNode.items', params={'self': 'ref[MappingNode]'}, returns='list[tuple[ref[TreeNode],ref[TreeNode]]]',
+             virtual=True, pure=True,
+             ensures=['len(result) == len(self.mitems)',
+                      'forall(i, 0, len(result), result[i][0] == self.mitems[i][1].key and result[i][1] == self.mitems[i][1].value)'],
+             trusted='MappingNode.items against the ghost item list (proved in contracts.mapping_items for MappingNode and FixedKeyDictNode)')
+MI = 'self.mitems'
+REG.contract('MappingNode.to_obj', params={'self': 'ref[MappingNode]'}, returns='dict[int,int]',
+             requires=[f'forall(a, 0, len({MI}), forall(b, 0, len({MI}), implies(a < b, objof({MI}[a][1].key) != objof({MI}[b][1].key))))'],
+             ensures=[f'len(result) == len({MI})',
+                      f'forall(i, 0, len(result), result[i][0] == objof({MI}[i][1].key) and result[i][1] == objof({MI}[i][1].value))'])
+REG.targets += ['graphtage.MappingNode.to_obj']
